@@ -237,7 +237,7 @@ class C15(core.Prop):
         for a, e in zip(act, exp):
             if norm(a) == norm(e):
                 continue
-            if any(s in e for s in subs):
+            if any(s in norm(e) for s in subs):     # (the reference line as compared: after the stripping requested)
                 continue
             if pats and cf.doc_pat_equiv(norm(a), norm(e), pats):
                 continue
